@@ -58,7 +58,27 @@ fn sk_stmts(ss: Vec<String>) -> String {
 }
 
 fn op(parts: Vec<String>) -> String {
-    format!("(EOp true {})", sk_exprs(parts))
+    format!("(EOp KTmp {})", sk_exprs(parts))
+}
+fn opk(kind: &str, parts: Vec<String>) -> String {
+    format!("(EOp {} {})", kind, sk_exprs(parts))
+}
+
+/// a call: `void` = statement-level call of type null (lower_expr_discard emits CallVoid)
+fn sk_call(callee: &TypedExpr, args: &[TypedExpr], void: bool, nm: &mut Names) -> String {
+    use TypedExprKind as K;
+    let mut parts: Vec<String> = args.iter().map(|a| sk_expr(a, nm)).collect();
+    let named = match &callee.kind {
+        K::Identifier(_) => true,
+        K::Member { object, .. } => matches!(object.kind, K::Identifier(_)),
+        _ => false,
+    };
+    if named {
+        opk(if void { "KVoid" } else { "KTmp" }, parts)
+    } else {
+        parts.push(sk_expr(callee, nm));
+        opk(if void { "(KCall true)" } else { "(KCall false)" }, parts)
+    }
 }
 
 fn sk_fn(caps: &[(String, InferType)], params: &[aelys_sema::TypedParam], body: &[TypedStmt], nm: &mut Names) -> (String, String, String) {
@@ -77,19 +97,12 @@ fn sk_expr(e: &TypedExpr, nm: &mut Names) -> String {
         K::Unary { operand, .. } => op(vec![sk_expr(operand, nm)]),
         K::And { left, right } => format!("(EShort true {} {})", sk_expr(left, nm), sk_expr(right, nm)),
         K::Or { left, right } => format!("(EShort false {} {})", sk_expr(left, nm), sk_expr(right, nm)),
-        K::Call { callee, args } => {
-            let mut parts: Vec<String> = args.iter().map(|a| sk_expr(a, nm)).collect();
-            let named = match &callee.kind {
-                K::Identifier(_) => true,
-                K::Member { object, .. } => matches!(object.kind, K::Identifier(_)),
-                _ => false,
-            };
-            if !named {
-                parts.push(sk_expr(callee, nm));
-            }
-            op(parts)
+        K::Call { callee, args } => sk_call(callee, args, false, nm),
+        K::Assign { name, value } => {
+            let v = sk_expr(value, nm);
+            let k = format!("(KAssign {})", nm.id(name));
+            opk(&k, vec![v])
         }
-        K::Assign { value, .. } => op(vec![sk_expr(value, nm)]),
         K::Grouping(i) | K::Lambda(i) => sk_expr(i, nm),
         K::If { condition, then_branch, else_branch } => format!(
             "(EIfE {} {} {})",
@@ -114,9 +127,10 @@ fn sk_expr(e: &TypedExpr, nm: &mut Names) -> String {
                 }
             }
             if parts.len() >= 2 {
-                op(sub)
+                let k = format!("(KConcat {})", parts.len() - 1);
+                opk(&k, sub)
             } else {
-                format!("(EOp false {})", sk_exprs(sub))
+                opk("KPass", sub)
             }
         }
         K::Member { object, .. } => op(vec![sk_expr(object, nm)]),
@@ -127,7 +141,7 @@ fn sk_expr(e: &TypedExpr, nm: &mut Names) -> String {
         K::ArraySized { size, .. } => op(vec![sk_expr(size, nm)]),
         K::Index { object, index } => op(vec![sk_expr(object, nm), sk_expr(index, nm)]),
         K::IndexAssign { object, index, value } => {
-            op(vec![sk_expr(object, nm), sk_expr(index, nm), sk_expr(value, nm)])
+            opk("KVoid", vec![sk_expr(object, nm), sk_expr(index, nm), sk_expr(value, nm)])
         }
         K::Range { start, end, .. } => {
             let mut v = Vec::new();
@@ -147,7 +161,12 @@ fn sk_expr(e: &TypedExpr, nm: &mut Names) -> String {
 fn sk_stmt(s: &TypedStmt, nm: &mut Names) -> String {
     use TypedStmtKind as K;
     match &s.kind {
-        K::Expression(e) => format!("(SExpr {})", sk_expr(e, nm)),
+        K::Expression(e) => match &e.kind {
+            TypedExprKind::Call { callee, args } if matches!(e.ty, InferType::Null) => {
+                format!("(SExpr {})", sk_call(callee, args, true, nm))
+            }
+            _ => format!("(SExpr {})", sk_expr(e, nm)),
+        },
         K::Let { name, initializer, .. } => {
             let id = nm.id(name);
             format!("(SLet {} {})", id, sk_expr(initializer, nm))
@@ -341,6 +360,18 @@ mod validate {
             }
         }
     }
+    pub fn local_counts(f: &AirFunction) -> [usize; 4] {
+        let m = mentions(f);
+        let mut d: Vec<u32> = Vec::new();
+        for l in &m.locals {
+            if !d.contains(l) {
+                d.push(*l);
+            }
+        }
+        let undeclared = d.iter().filter(|l| !f.locals.iter().any(|x| x.id.0 == **l) && !f.params.iter().any(|x| x.id.0 == **l)).count();
+        [f.params.len(), f.locals.len(), d.len(), undeclared]
+    }
+
     fn mentions(f: &AirFunction) -> Mentions {
         let mut m = Mentions::default();
         for b in &f.blocks {
@@ -1567,6 +1598,12 @@ fn run_case(case: &str, code: &str, modes: &[&str], st: &mut Stats) {
         // contract tie for the skeleton
         let rows: Vec<String> = pre.functions.iter().map(|f| rows_term(&canon_fn(f).0)).collect();
         println!("SK\t{}\t{}\t{}\t[{}]", case, mode, sk, rows.join(";"));
+        // tie (e): how many ids each function lists as parameters, declares, and mentions
+        let lrows: Vec<String> = pre.functions.iter().map(|f| {
+            let c = validate::local_counts(f);
+            format!("[{};{};{};{}]", c[0], c[1], c[2], c[3])
+        }).collect();
+        println!("LO\t{}\t{}\t{}\t[{}]", case, mode, sk, lrows.join(";"));
         if let Some((q, o)) = types_case(&tp, &pre) {
             println!("TY\t{}\t{}\t{}\t{}", case, mode, q, o);
         }
